@@ -14,7 +14,7 @@ MANIFEST = dict(
          "them (invariant by induction; build_commitment_secret is executable over a Gallina SHA-256 validated "
          "against FIPS/RFC/BOLT-3 vectors).  On every run the real Node (new_channel / setup_channel / restore) is "
          "driven through all creation orders of <= 4 channel ids with restarts, a monitor compares every observation "
-         "of the same (seed, style, id) across histories, a real channel is advanced through the protocol handler (hsmd protocol 4/5/6) and every API handing out a per-commitment point or secret, incl. replayed revocations, is compared with the derivation for the number asked, and the secret keys, keys_id, commitment seed and released "
+         "of the same (seed, style, id) across histories, a real channel is advanced through the protocol handler (hsmd protocol 4/5/6) and every API handing out a per-commitment point or secret, incl. replayed revocations, (and CheckFutureSecret over the wire) is compared with the derivation for the number asked, and the secret keys, keys_id, commitment seed and released "
          "secrets are recomputed inside Coq (HKDF/SHA-256 in Gallina, BIP32 child key by oracle); the real "
          "CounterpartyCommitmentSecrets is run against the model on descending / gapped / wrong / malformed streams "
          "of real released secrets.",
@@ -27,7 +27,7 @@ MANIFEST = dict(
               "correspondence with the Rust implementation",
 )
 
-PINNED = ["C18_history_independent", "C18_channel_keys_function", "C18_distinct", "C18_distinct_secrets",
+PINNED = ["C18_history_independent", "C18_channel_keys_function", "C18_check_future_secret", "C18_distinct", "C18_distinct_secrets",
           "C18_api_ids_not_confused_by_padding", "C18_derivation_tree", "C18_tree_any_hash", "C18_tree",
           "C18_nonvacuous", "C18_tree_nonvacuous", "C18_lnd_order_dependent"]
 
@@ -50,6 +50,9 @@ def run(res):
     imports = ["Model.KeysCheck"]
     fk = lib.coq_failures(imports, "keys_case", "check_keys", [c["coq"] for c in kcases], "c18_keys")
     fs = lib.coq_failures(imports, "store_case", "check_store", [c["coq"] for c in scases], "c18_store")
+    fcases = adv.get("FCASE", [])
+    ff = lib.coq_failures(imports, "future_case", "check_future", [c["coq"] for c in fcases], "c18_future",
+                          shards=min(lib.NCPU, max(1, len(fcases))))
 
     # the property itself on the implementation's answers
     mon = []
@@ -79,6 +82,13 @@ def run(res):
             res.violation("derived keys / keys_id / released secrets disagree with Model.Keys (correspondence keys-hist)",
                           {"correspondence": "keys-hist", "theorem": "C18_channel_keys_function",
                            "case": _strip(c), "model": model[-3000:]}, has_input=False)
+        for i in ff[:2]:
+            c = fcases[i]
+            model = lib.coq_eval(imports, "future_model (%s)" % c["coq"], "c18_show")
+            res.violation("the CheckFutureSecret answers disagree with Model.Keys.check_future_secret over the secrets "
+                          "derived from (seed, channel id) (correspondence keys-adv)",
+                          {"correspondence": "keys-adv/future", "theorem": "C18_check_future_secret",
+                           "case": _strip(c), "model": model[-3000:]}, has_input=False)
         for i in fs[:2]:
             c = scases[i]
             model = lib.coq_eval(imports, "store_model (%s)" % c["coq"], "c18_show")
@@ -99,7 +109,10 @@ def run(res):
         qk = c.get("query_kinds", [])
         if (True in oks and False in oks) or (c.get("final_len", 0) >= 3 and 0 in qk and (1 in qk or 2 in qk)):
             nontrivial.add(c["coq"])
-    allc = kcases + scases
+    for c in fcases:
+        if c.get("answered_true", 0) and c.get("answered_true", 0) < c.get("queries_total", 0):
+            nontrivial.add(c["coq"])
+    allc = kcases + scases + fcases
     cov.update({
         "evaluations": len(allc),
         "distinct_nontrivial": len(nontrivial),
@@ -116,7 +129,11 @@ def run(res):
                 "revoke_previous_holder_commitment incl. replays of every old number, GetPerCommitmentPoint(2)Reply, "
                 "RevokeCommitmentTxReply and ValidateCommitmentTxReply incl. replays) is asked for every number in reach "
                 "and compared with the derivation for the number ASKED; the asked-number -> secret map is recomputed in "
-                "Coq from (seed, id); non-trivial = reached next_holder_commit_num >= 3 (old revocations replayed).  keys-store: nine stream kinds over the real released secrets of a "
+                "Coq from (seed, id); non-trivial = reached next_holder_commit_num >= 3 (old revocations replayed); on the same channels, "
+                "before / during / after the advance and after restarts, the CheckFutureSecret wire route (as_vec -> "
+                "from_vec -> ChannelHandler::handle) for n in {0, 1, 2, small, 2^47, random 48-bit, 2^48-2, 2^48-1} with "
+                "secret(n), secret(n-1), secret(n+1), another channel's secret(n) and random bytes, expected true exactly "
+                "for the own secret of n (monitor) and eight of the answers per channel recomputed in Coq from (seed, id).  keys-store: nine stream kinds over the real released secrets of a "
                 "real channel (descending, gaps, wrong secret, repeats/older, the current minimum again with another secret, late start, malformed indices up to "
                 "2^64-1, long descending, mixed) with get_secret queries around every index; non-trivial = both an "
                 "accepted and a refused secret, or >= 3 slots with found and not-found/panicking queries; distinct by "
@@ -124,7 +141,7 @@ def run(res):
         "samples": [_strip(kcases[0]) if kcases else {}, _strip(acases[0]) if acases else {},
                     _strip(scases[0]) if scases else {}],
         "traces_validated_against_impl": len(allc),
-        "correspondence_disagreements": len(fk) + len(fs),
+        "correspondence_disagreements": len(fk) + len(fs) + len(ff),
         "monitor_failures": len(mon),
         "harness_stats": hist.get("STATS", []) + adv.get("STATS", []) + store.get("STATS", []),
     })
